@@ -33,6 +33,50 @@ theorem source_constants_are_modelled :
        "nameFromEnv, ok := options.Environment[consts.ComposeProjectName]; ok && nameFromEnv != \"\""] := by
   decide
 
+/-- **the function bodies the model mirrors are the ones in the source now** (printed without comments,
+    regenerated on every run): the option functions of `cli/options.go`, `GetWorkingDir`, `withNamePrecedenceLoad`,
+    `findFiles`, `absolutePaths`, `loader.projectName`, `NormalizeProjectName`, `dotenv.GetEnvFromFile`,
+    `Mapping.Merge`, `utils.GetAsEqualsMap`.  Any edit to one of them breaks this theorem, on top of whatever the
+    correspondence finds. -/
+theorem modelled_functions_are_source :
+    CV.Gen.c17_body_NewProjectOptions =
+      "{ options := &ProjectOptions{ ConfigPaths: configs, Environment: map[string]string{}, Listeners: []loader.Listener{}, } for _, o := range opts { err := o(options) if err != nil { return nil, err } } return options, nil }" ∧
+    CV.Gen.c17_body_WithName =
+      "{ return func(o *ProjectOptions) error { if name != loader.NormalizeProjectName(name) { return loader.InvalidProjectNameErr(name) } o.Name = name return nil } }" ∧
+    CV.Gen.c17_body_WithWorkingDirectory =
+      "{ return func(o *ProjectOptions) error { if wd == \"\" { return nil } abs, err := filepath.Abs(wd) if err != nil { return err } o.WorkingDir = abs return nil } }" ∧
+    CV.Gen.c17_body_WithConfigFileEnv =
+      "{ if len(o.ConfigPaths) > 0 { return nil } sep := o.Environment[consts.ComposePathSeparator] if sep == \"\" { sep = string(os.PathListSeparator) } f, ok := o.Environment[consts.ComposeFilePath] if ok { paths, err := absolutePaths(strings.Split(f, sep)) o.ConfigPaths = paths return err } return nil }" ∧
+    CV.Gen.c17_body_WithDefaultConfigPath =
+      "{ if len(o.ConfigPaths) > 0 { return nil } pwd, err := o.GetWorkingDir() if err != nil { return err } for { candidates := findFiles(DefaultFileNames, pwd) if len(candidates) > 0 { winner := candidates[0] if len(candidates) > 1 { logrus.Warnf(\"Found multiple config files with supported names: %s\", strings.Join(candidates, \", \")) logrus.Warnf(\"Using %s\", winner) } o.ConfigPaths = append(o.ConfigPaths, winner) overrides := findFiles(DefaultOverrideFileNames, pwd) if len(overrides) > 0 { if len(overrides) > 1 { logrus.Warnf(\"Found multiple override files with supported names: %s\", strings.Join(overrides, \", \")) logrus.Warnf(\"Using %s\", overrides[0]) } o.ConfigPaths = append(o.ConfigPaths, overrides[0]) } return nil } parent := filepath.Dir(pwd) if parent == pwd { return nil } pwd = parent } }" ∧
+    CV.Gen.c17_body_WithEnv =
+      "{ return func(o *ProjectOptions) error { for k, v := range utils.GetAsEqualsMap(env) { o.Environment[k] = v } return nil } }" ∧
+    CV.Gen.c17_body_WithOsEnv =
+      "{ for k, v := range utils.GetAsEqualsMap(os.Environ()) { if _, set := o.Environment[k]; set { continue } o.Environment[k] = v } return nil }" ∧
+    CV.Gen.c17_body_WithEnvFiles =
+      "{ return func(o *ProjectOptions) error { if len(file) > 0 { o.EnvFiles = file return nil } if v, ok := os.LookupEnv(consts.ComposeDisableDefaultEnvFile); ok { b, err := strconv.ParseBool(v) if err != nil { return err } if b { return nil } } wd, err := o.GetWorkingDir() if err != nil { return err } defaultDotEnv := filepath.Join(wd, \".env\") s, err := os.Stat(defaultDotEnv) if errors.Is(err, fs.ErrNotExist) || errors.Is(err, syscall.ENOTDIR) { return nil } if err != nil { return err } if !s.IsDir() { o.EnvFiles = []string{defaultDotEnv} } return nil } }" ∧
+    CV.Gen.c17_body_WithDotEnv =
+      "{ envMap, err := dotenv.GetEnvFromFile(o.Environment, o.EnvFiles) if err != nil { return err } o.Environment.Merge(envMap) return nil }" ∧
+    CV.Gen.c17_body_GetWorkingDir =
+      "{ if o.WorkingDir != \"\" { return filepath.Abs(o.WorkingDir) } for _, path := range o.ConfigPaths { if path != \"-\" { absPath, err := filepath.Abs(path) if err != nil { return \"\", err } return filepath.Dir(absPath), nil } } return os.Getwd() }" ∧
+    CV.Gen.c17_body_withNamePrecedenceLoad =
+      "{ return func(opts *loader.Options) { if options.Name != \"\" { opts.SetProjectName(options.Name, true) } else if nameFromEnv, ok := options.Environment[consts.ComposeProjectName]; ok && nameFromEnv != \"\" { opts.SetProjectName(nameFromEnv, true) } else { dirname := filepath.Base(absWorkingDir) symlink, err := filepath.EvalSymlinks(absWorkingDir) if err == nil && filepath.Base(symlink) != dirname { logrus.Warnf(\"project has been loaded without an explicit name from a symlink. Using name %q\", dirname) } opts.SetProjectName( loader.NormalizeProjectName(dirname), false, ) } } }" ∧
+    CV.Gen.c17_body_findFiles =
+      "{ candidates := []string{} for _, n := range names { f := filepath.Join(pwd, n) if _, err := os.Stat(f); err == nil { candidates = append(candidates, f) } } return candidates }" ∧
+    CV.Gen.c17_body_absolutePaths =
+      "{ var paths []string for _, f := range p { if f == \"-\" { paths = append(paths, f) continue } abs, err := filepath.Abs(f) if err != nil { return nil, err } f = abs if _, err := os.Stat(f); err != nil { return nil, err } paths = append(paths, f) } return paths, nil }" ∧
+    CV.Gen.c17_body_projectName =
+      "{ defer func() { if details.Environment == nil { details.Environment = map[string]string{} } details.Environment[consts.ComposeProjectName] = opts.projectName }() if opts.projectNameImperativelySet { if NormalizeProjectName(opts.projectName) != opts.projectName { return InvalidProjectNameErr(opts.projectName) } return nil } type named struct { Name string `yaml:\"name\"` } // if user did NOT provide a name explicitly, then see if one is defined // in any of the config files var pjNameFromConfigFile string for _, configFile := range details.ConfigFiles { content := configFile.Content if content == nil { d, err := os.ReadFile(configFile.Filename) if err != nil { return fmt.Errorf(\"failed to read file %q: %w\", configFile.Filename, err) } content = d configFile.Content = d } var n named r := bytes.NewReader(content) decoder := yaml.NewDecoder(r) for { err := decoder.Decode(&n) if err != nil && errors.Is(err, io.EOF) { break } if err != nil { break } if n.Name != \"\" { pjNameFromConfigFile = n.Name } } } if !opts.SkipInterpolation { interpolated, err := interp.Interpolate( map[string]interface{}{\"name\": pjNameFromConfigFile}, *opts.Interpolate, ) if err != nil { return err } pjNameFromConfigFile = interpolated[\"name\"].(string) } pjNameFromConfigFile = NormalizeProjectName(pjNameFromConfigFile) if pjNameFromConfigFile != \"\" { opts.projectName = pjNameFromConfigFile } return nil }" ∧
+    CV.Gen.c17_body_NormalizeProjectName =
+      "{ r := regexp.MustCompile(\"[a-z0-9_-]\") s = strings.ToLower(s) s = strings.Join(r.FindAllString(s, -1), \"\") return strings.TrimLeft(s, \"_-\") }" ∧
+    CV.Gen.c17_body_GetEnvFromFile =
+      "{ envMap := make(map[string]string) for _, dotEnvFile := range filenames { abs, err := filepath.Abs(dotEnvFile) if err != nil { return envMap, err } dotEnvFile = abs s, err := os.Stat(dotEnvFile) if errors.Is(err, fs.ErrNotExist) || errors.Is(err, syscall.ENOTDIR) { return envMap, fmt.Errorf(\"Couldn't find env file: %s\", dotEnvFile) } if err != nil { return envMap, err } if s.IsDir() { if len(filenames) == 0 { return envMap, nil } return envMap, fmt.Errorf(\"%s is a directory\", dotEnvFile) } b, err := os.ReadFile(dotEnvFile) if os.IsNotExist(err) { return nil, fmt.Errorf(\"Couldn't read env file: %s\", dotEnvFile) } if err != nil { return envMap, err } env, err := ParseWithLookup(bytes.NewReader(b), func(k string) (string, bool) { v, ok := currentEnv[k] if ok { return v, true } v, ok = envMap[k] return v, ok }) if err != nil { return envMap, fmt.Errorf(\"failed to read %s: %w\", dotEnvFile, err) } for k, v := range env { envMap[k] = v } } return envMap, nil }" ∧
+    CV.Gen.c17_body_MappingMerge =
+      "{ for k, v := range o { if _, set := m[k]; !set { m[k] = v } } return m }" ∧
+    CV.Gen.c17_body_GetAsEqualsMap =
+      "{ m := make(map[string]string) for _, v := range em { key, val, found := strings.Cut(v, \"=\") if found { m[key] = val } } return m }" := by
+  exact ⟨rfl, rfl, rfl, rfl, rfl, rfl, rfl, rfl, rfl, rfl, rfl, rfl, rfl, rfl, rfl, rfl, rfl, rfl⟩
+
 /-- the character class and the cutset, read as sets of characters, are the predicates of the model -/
 theorem regex_class_is_isNameChar :
     ((List.range 128).all fun n =>
